@@ -634,7 +634,8 @@ impl<T: Elem + SatisfyTraits<Tr>, M: MX, Tr: TrX + ?Sized> World<T, M, Tr> {
             let live = elem::with_reg(|r| r.zst_live);
             if live < visible { out.fail(Class::Own, "dead-visible", format!("{visible} zero-sized elements visible but only {live} alive")); }
         }
-        let _ = pre_len;
+        // storage of the vector under test (first Mem built in this run) is never resized below the live length (C05)
+        if matches!(M::KIND, BK::Track) && !out.faulted { let live = std::cmp::min(pre_len, a.len()); if let Some(e) = track::with_ts(|ts| ts.resize_below(0, live)) { out.fail(Class::Mem, "resized-below-live", e); } }
         // heap-backed vectors: at most one allocation each, none while cap x size == 0, big and aligned enough (C18)
         {
             let mut want: Vec<(usize, usize)> = Vec::new(); // (base ptr, bytes) of every heap-backed vector alive now
